@@ -6,6 +6,7 @@ mod c06;
 mod c08;
 mod c09;
 mod c10;
+mod c17;
 mod transports;
 mod selftest;
 
@@ -28,6 +29,7 @@ fn main() {
         "C08" => c08::run(tier),
         "C09" => c09::run(tier),
         "C10" => c10::run(tier),
+        "C17" => c17::run(tier),
         "load-probe" => c06::load_probe_child(&args[3]),
         other => {
             eprintln!("unknown sub-command {}", other);
